@@ -1,4 +1,5 @@
 import Taskpool.Inv.Tame
+import Taskpool.Inv.Want
 import Taskpool.Model.Bits
 /-! Boolean versions of the invariants of `Inv/Tame.lean`, evaluated by the driver on every model state the
 implementation was just shown to agree with.  They restate the `Prop` definitions clause by clause; they are a
@@ -106,16 +107,38 @@ def invBits2 (w : World) : String :=
     b (p.slotBit ((w.cfgs[i]?.map (·.size0)).getD .inf)) ++ b p.phaseBit ++ b (!p.lost) ++ b p.regBit ++
     b (p.lifeBit && p.groupsBit) ++ b p.mapBit ++ b p.accBit ++ b p.flushBit ++ b p.wakeBit)
 
-/-- twelve bits per pool: the nine of `invBits2` on the state after the step, then: cancelled spawners stopped
+/-- `Pool.Want` (nobody exempt), clause by clause -/
+def Pool.wantBit (p : Pool) : Bool :=
+  (p.tasks.all fun k => (k.quiet || k.sched) && k.phase != .wrapUp && (k.phase != .finished || k.outcome.isSome)) &&
+  (p.reqs.zipIdx.all fun (r, m) =>
+    (r.outcome.isSome || ((r.frame != .notStarted || r.sched) && r.frame != .running && r.frame != .done)) &&
+    (r.outcome.isNone || r.frame == .done) &&
+    (!(r.outcome.isNone && r.frame == .waitRoom) || (owners p.sem.waiters).contains m) &&
+    r.mapSem.waiters.length ≤ 1 &&
+    (r.mapSem.waiters.all fun w => w.owner == m && r.frame == .waitMapSem && r.outcome.isNone && (w.st == .pending || r.sched)) &&
+    (!(r.outcome.isNone && r.frame == .waitMapSem) || !r.mapSem.waiters.isEmpty)) &&
+  nodupB (owners p.sem.waiters) &&
+  (p.sem.waiters.all fun w => match p.reqs[w.owner]? with
+    | some r => r.frame == .waitRoom && r.outcome.isNone && (w.st == .pending || r.sched)
+    | none => false)
+
+/-- `World.SchedOK` between two inputs: whoever is flagged has a handle in the loop's ready queue -/
+def World.schedBit (w : World) (i : Nat) (p : Pool) : Bool :=
+  (p.tasks.zipIdx.all fun (k, t) => !k.sched || w.ready.contains (i, .task t)) &&
+  (p.reqs.zipIdx.all fun (r, m) => !r.sched || w.ready.contains (i, .spawner m)) &&
+  (p.apis.zipIdx.all fun (a, j) => !a.sched || w.ready.contains (i, .api j))
+
+/-- fourteen bits per pool: the nine of `invBits2` on the state after the step, then: cancelled spawners stopped
 (`CancOK`), no snapshot changed by this step, every spawner this step filed as cancelled (from outside its own handle)
 has a snapshot (`fromCaller`: the step was a call from outside the loop, so no spawner was inside its own handle; otherwise
-a spawner that was due to run is not examined) -/
+a spawner that was due to run is not examined); then `Want` and `SchedOK` (whoever has something to do is flagged,
+whoever is flagged has a handle in the ready queue) -/
 def invBits3 (w w' : World) (fromCaller : Bool) : String :=
   "v2:" ++ ".".intercalate (w'.pools.zipIdx.map fun (p', i) =>
     let b (x : Bool) := if x then "1" else "0"
     let p := w.pools[i]?.getD p'
     b (p'.slotBit ((w'.cfgs[i]?.map (·.size0)).getD .inf)) ++ b p'.phaseBit ++ b (!p'.lost) ++ b p'.regBit ++
     b (p'.lifeBit && p'.groupsBit) ++ b p'.mapBit ++ b p'.accBit ++ b p'.flushBit ++ b p'.wakeBit ++
-    b p'.cancBit ++ b (snapKeptBit p p') ++ b (p.snapTakenBit p' fromCaller))
+    b p'.cancBit ++ b (snapKeptBit p p') ++ b (p.snapTakenBit p' fromCaller) ++ b p'.wantBit ++ b (w'.schedBit i p'))
 
 end Taskpool
